@@ -107,6 +107,7 @@ fn main() {
         silence_stderr();
     }
     engine::panics::install_hook();
+    engine::panics::install_log_sink();
     match cmd {
         "plan" => {
             let sp: Vec<Value> = prop
